@@ -363,6 +363,7 @@ for _I, _N in enumerate(self.tuple_of_nests):
     ok = has(ni.node, """
 _INV = self.mev_alternatives - set(self.choice_set)
 if _INV:
+    ___
     raise BiogemeError(__MSG)
 """)
     ctx.add('C12.R5', 'Nests.__init__', ok, ni, 'alternatives outside the choice set are refused' if ok else 'Nests.__init__ no longer refuses foreign alternatives', 'foreign')
